@@ -11,7 +11,7 @@ Not decided: wall-clock behaviour of the reactor.
 import ast
 
 from ..model import self_attr, unparse, walk_body_shallow
-from .util import const_value, bootstrap_names, call_name, call_recv, calls_in, evaluated_unconditionally, kwarg, need, node_assign_value, norm, registrations, where
+from .util import chains_in, origin_text, at, stored_forms, const_value, bootstrap_names, call_name, call_recv, calls_in, evaluated_unconditionally, kwarg, need, node_assign_value, norm, registrations, where
 
 TECHNIQUE = "timer armed/released pairing on the CFG, registration-kind and free-variable-before-registration checks, " \
             "who-may-call"
@@ -93,6 +93,12 @@ def run(ctx):
     dn = [n for n in cto.nodes if any(call_name(x) == "disconnect" for x in n.calls())]
     r.check(bool(dn) and all(("self._disconnect_on_timeout", True) in fto[n.id] for n in dn), "%s#disconnect-under-option" % to.qname,
             "broker connection is dropped on timeout regardless of the option (or never)", where(to, to.node))
+    # ... and under nothing but the option: every expired request drops the silent connection, whatever kind it is
+    extra_ = sorted({norm(t.stmt.test) for n in dn for t, lab in cto.control_deps_transitive(n.id) if t.kind == "test" and not (
+        chains_in(t.stmt.test) <= {"self", "self._disconnect_on_timeout"})})
+    r.check(bool(dn) and not extra_, "%s#disconnect-only-under-option" % to.qname,
+            "with the option on, the silent connection is dropped only when also %s" % extra_, where(to, to.node),
+            "a timed-out group join no longer drops the connection: the other unanswered requests on it are never re-sent")
     dis = ctx.func("brokerclient:_KafkaBrokerClient.disconnect")
     eff = [x for x in calls_in(dis) if call_name(x) in ("clear", "pop", "popitem", "errback", "callback", "close", "cancel")]
     r.check(bool(calls_in(dis, "loseConnection")) and not eff and not prog.direct_writes(dis), "%s#transport-only" % dis.qname,
@@ -116,6 +122,23 @@ def run(ctx):
                        isinstance(y.func, ast.Attribute) and y.func.value is x]
                 r.check(bool(par) and [norm(a) for a in par[0].args] == ["self.timeout", "self.reactor"], "%s#request.addTimeout" % f.qname,
                         "bootstrap request without the client timeout", where(f, x), "silent bootstrap host blocks metadata loading for ever")
+
+    # the deadline is the configured one: self.timeout is the constructor argument converted from msecs, nothing else
+    kinit = ctx.func(KC + ".__init__")
+    tforms = stored_forms(ctx, kinit, "timeout")
+    tp_ = [p_ for p_ in kinit.params if p_ == "timeout"]
+    ckn = ctx.cfg(kinit)
+    okt_ = bool(tp_)
+    wns_ = [n for n in ckn.nodes if node_assign_value(n, "timeout") is not None]
+    okt_ = okt_ and bool(wns_)
+    for wn in wns_:
+        v = at(ctx, kinit, wn.id, node_assign_value(wn, "timeout"))
+        okt_ = okt_ and isinstance(v, ast.BinOp) and isinstance(v.op, ast.Div) and const_value(prog, kinit, v.right) in (1000, 1000.0) and \
+            origin_text(ckn, wn.id, v.left, kinit.params) in ("float(<param:timeout>)", "<param:timeout>")
+    r1b = ctx.rule("R9", "the client timeout is the configured value (unit conversion only)", 1, "A")
+    r1b.check(okt_,
+              "%s#timeout-as-configured" % kinit.qname, "self.timeout is computed as %s" % tforms, where(kinit, kinit.node),
+              "with any setting below a built-in floor an unanswered request stays pending past the configured deadline")
 
     # ---- R7 join minimum
     r = ctx.rule("R7", "join passes a minimum above the session timeout; the coordinator sender forwards it to the wrapper", 2, "A")
